@@ -265,7 +265,11 @@ class C17(PropBase):
 
     # ------------------------------------------------------------------ correspondence
     def canon_impl(self, case, ans, profile):
-        return "" if case.startswith("B ") else "|".join(ans.split("|", 2)[:2])      # the eight paths + the lookup(kind) flag
+        if case.startswith("B "):
+            return ""
+        parts = ans.split("|")
+        # the eight paths + the lookup(kind) flag + std::path's components of ROOT.join(rel) and of its parent
+        return "|".join(parts[:2] + [x for x in parts[2:] if x.startswith("P")])
 
     def canon_model(self, case, ans):
         return "" if case.startswith("B ") else ans
@@ -278,7 +282,7 @@ class C17(PropBase):
             return "a lookup builder panicked: " + ans[3:200]
         parts = ans.split("|")
         fields = parts[0].split(";")
-        if len(fields) != len(FIELDS) or len(parts) != 4:
+        if len(fields) != len(FIELDS) or len(parts) != 5:
             return "unparseable answer " + ans[:120]
         lflag, jflags, idtxt = parts[1], parts[2], parts[3]
         if not jflags.startswith("J") or len(jflags) != 1 + len(FIELDS):
@@ -295,6 +299,15 @@ class C17(PropBase):
             if j != "1":
                 return "%s = %r: std::path::Path::new(root).join(rel) left the root or has a ParentDir component" % (
                     name, rel.decode("utf-8", "replace"))
+        # create_dir_all(parent of root.join(rel)) and the file itself: root's components must stay in front, no `..` after them
+        for name, f, obs in zip(FIELDS, fields, parts[4][1:].split(";")):
+            if f in ("N", "P") or "cache_rel" not in name:
+                continue
+            for what, o in zip(("Path::new(root).join(rel)", "the parent of Path::new(root).join(rel)"), obs.split(":")):
+                comps = [] if o == "-" else o.split(",")
+                if o == "!" or "2e2e" in comps:
+                    return "%s = %r: %s does not keep the root's components in front (or has a `..` component)" % (
+                        name, unhx(f).decode("utf-8", "replace"), what)
         if lflag != "L1":
             return "lookup(module, kind) differs from the direct builder"
         a, b = idtxt[1:].split(",")
